@@ -373,7 +373,8 @@ func scanAgrees(c Case, g geom.T, derr error) error {
 	if derr == nil {
 		kind = model.KindOf(g)
 	}
-	for k, w := range ws {
+	for _, k := range []string{model.Point, model.LineString, model.Polygon, model.MultiPoint, model.MultiLineString, model.MultiPolygon, model.GeometryCollection} {
+		w := ws[k]
 		err := run.Safe(func() error { return w.Scan(src) })
 		if k == kind {
 			if err != nil {
@@ -459,7 +460,11 @@ func FuzzHex(f *testing.F) {
 		defer func() { wkbcommon.MaxGeometryElements = old }()
 		wkbcommon.MaxGeometryElements = [4]int{0, 64, 64, 64}
 		err := run.Safe(func() error {
-			for name, dec := range map[string]func(string) (geom.T, error){"wkbhex": func(s string) (geom.T, error) { return wkbhex.Decode(s) }, "ewkbhex": ewkbhex.Decode} {
+			for _, nd := range []struct {
+				name string
+				dec  func(string) (geom.T, error)
+			}{{"wkbhex", func(s string) (geom.T, error) { return wkbhex.Decode(s) }}, {"ewkbhex", ewkbhex.Decode}} {
+				name, dec := nd.name, nd.dec
 				g, err := dec(s)
 				if err != nil {
 					continue
